@@ -237,11 +237,15 @@ fn turn_words(t: usize, s: usize) -> Vec<String> {
     out
 }
 
-/// what is compared: everything, or — when the library's priorities are not a function of the schedule at
-/// all (two runs of the same thread alone differ: a generator seeded from the clock or an address) — only
-/// what does not depend on priorities
-fn turns_view(v: &Value, priorities_reproducible: bool) -> Value {
-    if priorities_reproducible || !v["panicked"].is_null() {
+/// What is compared: what the property calls a thread's treap RESULTS — contents in order, sizes, number of
+/// nodes created, panics — never the priority values or the shape.  A generator shared by all threads (one
+/// stream behind a lock: the obvious repair of the original `static mut`) hands a thread other draws when
+/// other threads draw in between; every execution of this pass is a serialised one, so whatever streams it
+/// produces are by definition streams "some sequential execution could have produced".  (The first version
+/// compared priorities and shape too and raised a false alarm on the shared-mutex generator,
+/// mutants/benign-by-agents/B5-benign_treap_shared_mutex.diff.)
+fn turns_view(v: &Value, _priorities_reproducible: bool) -> Value {
+    if !v["panicked"].is_null() {
         v.clone()
     } else {
         json!({"size": v["size"], "nodes": v["nodes"], "created": v["created"], "values_hash": v["values_hash"], "panicked": v["panicked"]})
@@ -267,8 +271,6 @@ fn turns_compare(profile: &str, prelude: &str, word: &str, sizes: &str, th: usiz
     }
     let what = if !got["panicked"].is_null() {
         format!("its operations panicked ({})", got["panicked"])
-    } else if got["created_hash"] != alone_v["created_hash"] {
-        format!("the priorities of the nodes it created differ (every 97th of them: {} against {} alone)", got["first_difference_probe"], alone_v["first_difference_probe"])
     } else {
         format!("its treap differs: {} against {} alone", got, alone_v)
     };
@@ -413,9 +415,11 @@ fn main() {
                     continue;
                 }
                 let words = turn_words(t, *s);
+                let prio_differs = std::sync::atomic::AtomicUsize::new(0);
                 let results: Vec<(String, usize, Result<Result<(), String>, String>)> = {
                     let next = std::sync::atomic::AtomicUsize::new(0);
                     let out = std::sync::Mutex::new(vec![]);
+                    prio_differs.store(0, std::sync::atomic::Ordering::Relaxed);
                     std::thread::scope(|sc| {
                         for _ in 0..12 {
                             sc.spawn(|| loop {
@@ -429,6 +433,9 @@ fn main() {
                                     let r = match &got {
                                         Err(m) => Err(m.clone()),
                                         Ok(g) => {
+                                            if g.get(th - 1).map_or(false, |x| x["created_hash"] != alone[th - 1]["created_hash"]) {
+                                                prio_differs.fetch_add(1, std::sync::atomic::Ordering::Relaxed);
+                                            }
                                             if g.get(th - 1).map(|x| turns_view(x, repro)) == Some(turns_view(&alone[th - 1], repro)) {
                                                 Ok(Ok(()))
                                             } else {
@@ -465,6 +472,7 @@ fn main() {
                     }
                 }
                 turn_summ.push(json!({"build": profile, "threads": t, "first_creations_in_order": prelude, "batches_per_thread": s, "batch_sizes": sizes, "orders_of_batches_executed": words.len(), "all_orders": true, "thread_results_differing_from_alone": bad, "priorities_reproducible_between_processes": repro,
+                    "thread_priority_streams_differing_from_alone_not_judged": prio_differs.load(std::sync::atomic::Ordering::Relaxed),
                     "nodes_created_by_thread_1_alone": alone[0]["created"], "distinct_priorities_probe_thread_1": alone[0]["created_head"]}));
             }
         }
